@@ -94,3 +94,45 @@ Proof.
   exists (calls v pre). unfold calls. rewrite Hp, filter_app, map_app. cbn [filter]. rewrite Hg. cbn [geval map].
   rewrite Hn. reflexivity.
 Qed.
+
+(* ---- context sharing: two registrations that share a context object are adjacent or separated by a barrier ----
+   (DESIGN 3.2 "sharing_ok").  For every pair i < j of registrations with the same non-None context that are not
+   adjacent, some pipeline_barrier registration k with i < k < j is unconditional or carries the guard of i or of j:
+   whenever both i and j execute, a barrier executes between them, so the second stage starts only after the first
+   has seen the whole stream (Pipeline.barrier_separates).  Decided by computation on the generated program. *)
+Definition regs_between (i j : nat) (p : program) : list reg :=
+  firstn (j - i - 1) (skipn (S i) p).
+Definition is_barrier_reg (r : reg) : bool := String.eqb (r_name r) "pipeline_barrier".
+Definition sep_by_barrier (ri rj : reg) (mid : list reg) : bool :=
+  existsb (fun r => is_barrier_reg r &&
+                    (is_true (r_guard r) || guard_eqb (r_guard r) (r_guard ri) || guard_eqb (r_guard r) (r_guard rj))) mid.
+Definition adjacent_regs (mid : list reg) : bool := match mid with [] => true | _ => false end.
+Fixpoint number_regs (i : nat) (p : program) : list (nat * reg) :=
+  match p with [] => [] | r :: rest => (i, r) :: number_regs (S i) rest end.
+Definition sharing_ok (p : program) : bool :=
+  let np := number_regs 0 p in
+  forallb (fun x => forallb (fun y =>
+     if Nat.ltb (fst x) (fst y) && negb (Nat.eqb (r_ctx (snd x)) 0) && Nat.eqb (r_ctx (snd x)) (r_ctx (snd y))
+        && negb (is_barrier_reg (snd x))
+     then let mid := regs_between (fst x) (fst y) p in adjacent_regs mid || sep_by_barrier (snd x) (snd y) mid
+     else true) np) np.
+Lemma program_sharing_ok : sharing_ok the_program = true.
+Proof. vm_compute. reflexivity. Qed.
+
+(* the pairs concerned, as a readable list (name of first, name of second, is-adjacent) *)
+Definition shared_pairs (p : program) : list (string * string * bool) :=
+  let np := number_regs 0 p in
+  flat_map (fun x => flat_map (fun y =>
+     if Nat.ltb (fst x) (fst y) && negb (Nat.eqb (r_ctx (snd x)) 0) && Nat.eqb (r_ctx (snd x)) (r_ctx (snd y))
+        && negb (is_barrier_reg (snd x))
+     then [(r_name (snd x), r_name (snd y), adjacent_regs (regs_between (fst x) (fst y) p))] else []) np) np.
+Lemma program_shared_pairs :
+  shared_pairs the_program =
+  [("normalize_phase1", "normalize_phase2", false); ("frequency_align_collect", "frequency_align_apply", false);
+   ("detect_partial_overlap_tids", "detect_partial_overlap_events", false);
+   ("compute_utilization_fingerprints", "compute_utilization", false);
+   ("communication_event_collection", "communication_event_apply", false);
+   ("launch_flow_collect", "launch_flow_create_missing", false);
+   ("event_categorizer", "event_categorizer_update", false);
+   ("tb_refinement_intrusive", "tb_refinement_lightweight", true)].
+Proof. vm_compute. reflexivity. Qed.
